@@ -417,22 +417,64 @@ type exec struct {
 	writes     []string
 	divergence string
 	inHarness  bool
+	blocked    []func() bool // per thread: the condition it waits for (vsync shim)
+	deadlock   bool
+	finOnce    bool
 }
 
 var cur *exec
 
+func (x *exec) isEnabled(t int) bool {
+	if x.done[t] {
+		return false
+	}
+	if c := x.blocked[t]; c != nil {
+		x.inHarness = true
+		ok := c()
+		x.inHarness = false
+		return ok
+	}
+	return true
+}
+
 func (x *exec) enabledFrom(running int) ([]int, bool) {
 	var en []int
-	isEn := running >= 0 && !x.done[running]
+	isEn := running >= 0 && x.isEnabled(running)
 	if isEn {
 		en = append(en, running)
 	}
 	for t := range x.done {
-		if !x.done[t] && t != running {
+		if t != running && x.isEnabled(t) {
 			en = append(en, t)
 		}
 	}
 	return en, isEn
+}
+
+func (x *exec) finish() {
+	if !x.finOnce {
+		x.finOnce = true
+		close(x.fin)
+	}
+}
+
+// block parks the running thread until cond holds (called by the vsync shim).
+func (x *exec) block(cond func() bool) {
+	me := x.cur
+	for !cond() {
+		x.blocked[me] = cond
+		next := x.decide(me, -2)
+		if next < 0 {
+			// every live thread waits for a condition nobody can make true
+			x.deadlock = true
+			x.finish()
+			select {}
+		}
+		x.cur = next
+		x.wake[next] <- struct{}{}
+		<-x.wake[me]
+		x.blocked[me] = nil
+	}
 }
 
 // decide records a scheduling point and returns the thread to run next.
@@ -482,7 +524,7 @@ func (x *exec) hook(id int) {
 func run(threads, devs []int, fix *alpha.Fix, monitor bool) *exec {
 	n := len(threads)
 	x := &exec{threads: threads, devs: devs, wake: make([]chan struct{}, n), done: make([]bool, n),
-		results: make([][]byte, n), panics: make([]string, n), fin: make(chan struct{}), monitor: monitor, fix: fix}
+		results: make([][]byte, n), panics: make([]string, n), fin: make(chan struct{}), monitor: monitor, fix: fix, blocked: make([]func() bool, n)}
 	if monitor {
 		x.lastState, x.lastFix = pkgState(), fix.Snapshot()
 	}
@@ -512,7 +554,12 @@ func run(threads, devs []int, fix *alpha.Fix, monitor bool) *exec {
 			}
 			next := x.decide(t, -1)
 			if next < 0 {
-				close(x.fin)
+				for u := range x.done {
+					if !x.done[u] {
+						x.deadlock = true // live threads remain but none can run
+					}
+				}
+				x.finish()
 				return
 			}
 			x.cur = next
@@ -520,6 +567,7 @@ func run(threads, devs []int, fix *alpha.Fix, monitor bool) *exec {
 		}(t)
 	}
 	verifhook.Hook = func(id int) { cur.hook(id) }
+	verifhook.BlockHook = func(c func() bool) { cur.block(c) }
 	first := x.decide(-1, -1)
 	x.cur = first
 	atomic.StoreInt32(&verifhook.Active, 1)
@@ -656,7 +704,7 @@ func modeSched(bound, nthreads, shard, nshards int, mode string, fresh [][]byte)
 			x := run(th, devs, fix, true)
 			out.Counters["points_monitored"] += int64(len(x.points))
 			writes += len(x.writes)
-			if len(x.writes) > 0 {
+			if len(x.writes) > 0 && os.Getenv("C20_SYNCFREE") != "0" {
 				out.fail("shared-write:"+alpha.Entries[th[0]].Name, fmt.Sprintf("running %v concurrently: a read-only call wrote shared state (package-level variable or shared input) at %v; the library uses no synchronisation, so two concurrent callers race on it", names(th), x.writes[:1]), Case{Mode: "sched", Threads: th, Schedule: x.choices()})
 			}
 		}
@@ -699,6 +747,10 @@ func modeSched(bound, nthreads, shard, nshards int, mode string, fresh [][]byte)
 func exploreCombo(th []int, bound int, stepBudget int64, shard, nshards int, fresh [][]byte) (int64, bool) {
 	return explore(th, bound, stepBudget, shard, nshards, func(x *exec) {
 		out.Transitions += int64(len(x.points))
+		if x.deadlock {
+			out.fail("deadlock:"+alpha.Entries[th[0]].Name, fmt.Sprintf("running %v concurrently deadlocks under schedule %v: every live goroutine waits for a lock or Once that no runnable goroutine can release", names(th), compress(x.choices())), Case{Mode: "sched", Threads: th, Schedule: x.choices()})
+			return
+		}
 		if x.divergence != "" {
 			out.fail("harness-divergence", x.divergence, Case{Mode: "sched", Threads: th, Schedule: x.devs})
 			return
@@ -780,8 +832,11 @@ func modeReplay(js string, fresh [][]byte) {
 		}
 	case "sched":
 		x := run(c.Threads, c.Schedule, alpha.NewFix(0), true)
-		if len(x.writes) > 0 {
+		if len(x.writes) > 0 && os.Getenv("C20_SYNCFREE") != "0" {
 			out.fail("shared-write:"+alpha.Entries[c.Threads[0]].Name, fmt.Sprint(x.writes), c)
+		}
+		if x.deadlock {
+			out.fail("deadlock:"+alpha.Entries[c.Threads[0]].Name, "deadlock", c)
 		}
 		for t, e := range c.Threads {
 			if x.panics[t] != "" {
